@@ -357,7 +357,7 @@ def run(ctx):
         "rule": "KFPrediction objects over a time-varying linear model (F, Q, exogenous law may change between calls) used for 1..3 successive predict() calls (new component count per call), each preceded by a skip-command history ending with nothing skipped; near-duplicate consecutive components (cond up to 1e14); n in 1..%d, k in {1,2,3,4,6}; arbitrary F incl. zero/"
                 "triangular/symmetric/diagonal/identity/orthogonal, PSD P and Q incl. singular, with/without exogenous model u = G x + g; "
                 "non-trivial = n > 1 or k > 1; distinct = distinct single-call inputs" % (6 if ctx.quick() else 9),
-        "samples": [cases[0][0][:400], cases[-1][0][:400]],
+        "samples": [c_[0][:400] for c_ in (cases[:1] + cases[-1:])] or ["(history replay)"],
         "input_weight_modes (0 default, 1 first zero, 2 last zero, 3 all zero, 4 un-normalised, 5 tiny, 6 one negative, 7 one-hot)": wm, "style_histogram": hist, "numeric": stats, "objects": len(cases),
         "traces_validated_against_impl": len(singles),
         "model_vs_impl_disagreements": len(corr_bad), "property_failures_on_impl": len(prop_bad),
